@@ -493,7 +493,7 @@ def jobs(tier, prop):
         else:
             subs.append(s)
     return pack(subs, 32 if tier == 'quick' else 64, lambda s: 1.0, f'{prop.lower()}-l', weights='distinct',
-                timeout=170 if tier == 'quick' else 600)
+                timeout=170 if tier == 'quick' else 300)
 
 
 def bounds_text(tier, prop):
